@@ -2,11 +2,12 @@
     Only ExtrOcamlBasic is used: N/positive/nat stay the extracted inductive types.
     The path is relative to the directory coqc runs in (coq/). *)
 From Coq Require Import Extraction ExtrOcamlBasic.
-From XV Require Import C05.Spec05 C05.Model05 C05.Model05r.
+From XV Require Import C05.Spec05 C05.Model05 C05.Model05r C05.Spec05s C05.Model05s.
 Extraction Language OCaml.
 Extraction "../ocaml/C05/gen_c05.ml"
   scalarb utf8_enc utf16_enc wf8_seq utf8_val ucs4_enc
-  probe
+  probe spec_detect renc_of_enc upper_ascii encoding_for_name name_for_encoding make_transcoder_name make_transcoder_enum
+  set_encoding check_swapped family_code renc_code renc_of_code
   x8_from x8_to x8_can u4_from u4_to u16_from u16_to tab_from xlat_to tab_can tab_to ascii_from l1_from id_can
   win1252_from win1252_to win1252_tosz ibm037_from ibm037_to ibm037_tosz
   ibm1047_from ibm1047_to ibm1047_tosz ibm1140_from ibm1140_to ibm1140_tosz.
